@@ -91,6 +91,23 @@ func concretise(draws []interp.Draw, model map[string]string) ([]map[string]inte
 		} else if d.Sort == "str" && d.Term == "" {
 			e["str"] = ""
 		}
+		if d.Kind == "runestr" {
+			var sb strings.Builder
+			if d.Term != "" {
+				for _, rt := range strings.Split(d.Term, ",") {
+					k := 0
+					if raw, ok := model["cls!"+rt]; ok {
+						if mv, err := interp.ParseModelValue(raw); err == nil {
+							k = int(mv.I)
+						}
+					}
+					sb.WriteRune(interp.RuneWitness(k))
+				}
+			}
+			e["str"] = sb.String()
+			out = append(out, e)
+			continue
+		}
 		if d.Term != "" {
 			bits := uint64(0)
 			if raw, ok := model[d.Term]; ok {
